@@ -1,4 +1,5 @@
 import Mieru.Proofs.Server
+import Mieru.Proofs.ServerBytes
 import Mieru.Model.Discovery
 import Mieru.Gen.Facts
 import Mieru.Gen.Consts
@@ -440,5 +441,109 @@ example : udpStep { sessions := [5] } { len := 72, existing := some 0, dupOther 
     = { sessions := [5] } := by decide
 /-- forged hint: no user authenticates, hint names user 2 of 3, cache full of stale ids -/
 example : (Mieru.Discovery.tryState 3 (fun id => id == 2) (fun _ => false) [2, 9, 0, 2] false).user = none := by decide
+
+/-! ## Round 4: the property over raw bytes (`Mieru.Model.ServerBytes` = C09's reference codec ∘ AEAD ∘ this
+    first-contact model).  The driver op `srvb-tcp` / `srvb-udp` evaluates exactly `tcpUnits` / `udpUnit` /
+    `classifyTcp` with the executable XChaCha20-Poly1305 and the documented key derivation; the harness ships raw
+    bytes, credentials and the clock, and compares the reaction with the real server's. -/
+section BytesLevel
+open Mieru.Spec Mieru.ServerBytes Mieru.Proofs.ServerBytes
+
+/-- ROUND 4, the property over RAW BYTES (TCP, tight form).  `classifyTcp` is the byte-level function: the
+    reference codec of C09 + an AEAD + the candidate keys of the registered users + the receiver's clock turn the
+    bytes of one connection into header reads, `tcpRun` reacts to them.  If NO candidate key (any of the three
+    tried slots) of ANY registered user opens the first 72-byte header of the stream — the only AEAD unit the
+    server then ever tries — the server writes nothing, creates no session, hands nothing to Accept, whatever the
+    bytes, their number, the clock, the replay cache's answer, and whether the stream stalls or ends.  The
+    ideal-AEAD hypothesis is `h`, explicit. -/
+theorem tcp_bytes_silent_unless_header_opens (A : AeadFns) (users : List User) (nowMin : Nat) (dup : Bool)
+    (stream : Bytes) (eof : Bool)
+    (h : ∀ u ∈ users, ∀ k ∈ u.keys,
+      A.openF k (stream.take nonceSize) ((stream.drop nonceSize).take laterReadLen) = none) :
+    (classifyTcp A users nowMin dup stream eof).out = [] ∧
+    (classifyTcp A users nowMin dup stream eof).sessions = [] ∧
+    (classifyTcp A users nowMin dup stream eof).accepted = [] ∧
+    ((classifyTcp A users nowMin dup stream eof).recv = none ∨
+     (classifyTcp A users nowMin dup stream eof).closed = true) := by
+  obtain ⟨u, hu, hn⟩ := tcpUnits_first_none A users nowMin dup stream eof (openUnder_none A _ _ users h)
+  simp only [classifyTcp, hu]
+  exact tcp_silent_until_valid_open [u] (by intro x hx; simp at hx; subst hx; exact no_key_not_valid x hn)
+
+/-- … in the property's words: a byte string none of whose slices opens under a registered key (any nonce,
+    any tried slot) — everything a party without a registered credential can produce, under the ideal-AEAD
+    hypothesis — is met with silence. -/
+theorem tcp_bytes_silent (A : AeadFns) (users : List User) (nowMin : Nat) (dup : Bool)
+    (stream : Bytes) (eof : Bool) (h : OpensNowhere A users stream) :
+    (classifyTcp A users nowMin dup stream eof).out = [] ∧
+    (classifyTcp A users nowMin dup stream eof).sessions = [] ∧
+    (classifyTcp A users nowMin dup stream eof).accepted = [] ∧
+    ((classifyTcp A users nowMin dup stream eof).recv = none ∨
+     (classifyTcp A users nowMin dup stream eof).closed = true) :=
+  tcp_bytes_silent_unless_header_opens A users nowMin dup stream eof
+    (fun u hu k hk => h u hu k hk (stream.take nonceSize) nonceSize laterReadLen)
+
+/-- contrapositive: a connection that was answered or accepted presented a header that opens under a
+    candidate key of a registered user -/
+theorem tcp_bytes_accept_needs_registered_key (A : AeadFns) (users : List User) (nowMin : Nat) (dup : Bool)
+    (stream : Bytes) (eof : Bool)
+    (hacc : (classifyTcp A users nowMin dup stream eof).accepted ≠ [] ∨
+            (classifyTcp A users nowMin dup stream eof).out ≠ []) :
+    ∃ u ∈ users, ∃ k ∈ u.keys,
+      (A.openF k (stream.take nonceSize) ((stream.drop nonceSize).take laterReadLen)).isSome = true := by
+  apply Classical.byContradiction
+  intro hno
+  have hs := tcp_bytes_silent_unless_header_opens A users nowMin dup stream eof (fun u hu k hk => by
+    cases ho : A.openF k (stream.take nonceSize) ((stream.drop nonceSize).take laterReadLen) with
+    | none => rfl
+    | some mb => exact absurd ⟨u, hu, k, hk, by simp [ho]⟩ hno)
+  rcases hacc with h | h
+  · exact h hs.2.2.1
+  · exact h hs.1
+
+/-- UDP, byte level, from ANY state of the shared socket: a datagram whose header opens under no live
+    session's key from that address and under no candidate key of a registered user changes nothing (no
+    output, no session, no Accept). -/
+theorem udp_bytes_dropped (A : AeadFns) (users : List User) (existing : List (Nat × Bytes)) (nowMin : Nat)
+    (dup : Bool) (s : UdpSt) (d : Bytes)
+    (hex : ∀ e ∈ existing, A.openF e.2 (d.take nonceSize) ((d.drop nonceSize).take laterReadLen) = none)
+    (h : ∀ u ∈ users, ∀ k ∈ u.keys, A.openF k (d.take nonceSize) ((d.drop nonceSize).take laterReadLen) = none) :
+    classifyUdp A users existing nowMin dup s d = s := by
+  obtain ⟨h1, h2⟩ := udpUnit_none A users existing nowMin dup d hex (openUnder_none A _ _ users h)
+  apply udp_dropped_unless_effective
+  simp [UdpUnit.effective, h1, h2]
+
+/-- any number of datagrams (each with its own replay-cache answer) -/
+theorem udp_bytes_run_dropped (A : AeadFns) (users : List User) (existing : List (Nat × Bytes)) (nowMin : Nat)
+    (s : UdpSt) (ds : List (Bool × Bytes))
+    (hex : ∀ d ∈ ds, ∀ e ∈ existing, ∀ (n : Bytes) (i j : Nat), A.openF e.2 n ((d.2.drop i).take j) = none)
+    (h : ∀ d ∈ ds, OpensNowhere A users d.2) :
+    ds.foldl (fun s d => classifyUdp A users existing nowMin d.1 s d.2) s = s := by
+  induction ds generalizing s with
+  | nil => rfl
+  | cons d ds ih =>
+    simp only [List.foldl_cons]
+    rw [udp_bytes_dropped A users existing nowMin d.1 s d.2
+      (fun e he => hex d (List.mem_cons_self ..) e he _ nonceSize laterReadLen)
+      (fun u hu k hk => h d (List.mem_cons_self ..) u hu k hk _ nonceSize laterReadLen)]
+    exact ih s (fun d' hd' => hex d' (List.mem_cons_of_mem _ hd')) (fun d' hd' => h d' (List.mem_cons_of_mem _ hd'))
+
+/-- toy AEAD for non-vacuity: the tag is 16 copies of the key's first byte -/
+def toyAead : AeadFns where
+  sealF k _ p := p ++ List.replicate 16 (k.headD 0)
+  openF k _ c := if c.length ≥ 16 ∧ c.drop (c.length - 16) = List.replicate 16 (k.headD 0)
+                 then some (c.take (c.length - 16)) else none
+
+def toyStream : Bytes :=
+  zeros 24 ++ ((SessionMeta.encode ⟨2, 100, 7, 0, 0, 0, 0⟩) ++ List.replicate 16 9)
+
+example : (classifyTcp toyAead [⟨0, [[8], [9]]⟩] 101 false toyStream false).accepted = [7] ∧
+    (classifyTcp toyAead [⟨0, [[8], [9]]⟩] 101 false toyStream false).out = [.sessionTraffic 7] ∧
+    (classifyTcp toyAead [⟨0, [[8], [9]]⟩] 102 false toyStream false).accepted = [] ∧
+    (classifyTcp toyAead [⟨0, [[8], [9]]⟩] 101 true toyStream false).accepted = [] ∧
+    (classifyTcp toyAead [⟨0, [[8], [7]]⟩] 101 false toyStream false).accepted = [] ∧
+    (classifyTcp toyAead [⟨0, [[8], [9]]⟩] 101 false (toyStream.take 71) true).closed = true ∧
+    (classifyUdp toyAead [⟨3, [[9]]⟩] [] 100 false {} toyStream).accepted = [7] ∧
+    (classifyUdp toyAead [⟨3, [[9]]⟩] [] 100 false {} (toyStream ++ [0])).accepted = [] := by decide +kernel
+end BytesLevel
 
 end Mieru.C05
